@@ -357,6 +357,13 @@ func runCopy(mode string, seed int64, tier string, sc *Script) map[string]any {
 		cc := genCopyCase(rng, mode, tier == "thorough" && i%10 == 0)
 		switch mode {
 		case "C01":
+			if i%5 == 4 {
+				// the destination can mount blobs from other repositories and MountFrom names one
+				// or two of them for every blob; whether a mount succeeds varies with the blob
+				// (when none does, the last candidate falls back to a plain copy)
+				cc.mount = true
+				cc.label = "copygraph-mount-" + string(cc.dst)
+			}
 			if cc.dst == "oci" && i%4 == 1 {
 				// a file-system fault inside the destination's Push of one not yet present blob
 				var cands []int
@@ -638,7 +645,7 @@ func runCopy(mode string, seed int64, tier string, sc *Script) map[string]any {
 			pushAll(ctx, src, u, all)
 			dstT := memory.New()
 			op := []string{"push", "fetch", "exists", "preCopy", "preds"}[rng.Intn(5)]
-			if i%4 == 1 || i%4 == 3 {
+			if i%4 != 0 {
 				op = "preds"
 			}
 			run := func(faults []fault) (string, *copyRun) {
@@ -659,7 +666,14 @@ func runCopy(mode string, seed int64, tier string, sc *Script) map[string]any {
 				isrc := &instrGraphSrc{instrSrc: instrSrc{inner: src, r: r}, g: src}
 				idst := &instrTarget{instrDst: instrDst{inner: dstT, r: r}, t: dstT}
 				done := make(chan error, 1)
-				go func() { done <- oras.ExtendedCopyGraph(ctx, isrc, idst, shared.Desc, opts) }()
+				var xsrc content.ReadOnlyGraphStorage = isrc
+				if i%4 == 2 {
+					// a source that lists referrers itself (as a remote repository does), with an
+					// annotation filter on top: a failing listing is a failure of the copy
+					xsrc = &listerSrc{isrc}
+					opts.FilterAnnotation("k", nil)
+				}
+				go func() { done <- oras.ExtendedCopyGraph(ctx, xsrc, idst, shared.Desc, opts) }()
 				select {
 				case err := <-done:
 					if err != nil {
@@ -1562,6 +1576,36 @@ func (s *instrGraphSrc) Predecessors(ctx context.Context, d ocispec.Descriptor) 
 		}
 	}
 	return s.g.Predecessors(ctx, d)
+}
+
+// listerSrc makes the instrumented graph source a registry.ReferrerLister: what it lists are
+// the predecessors, with the annotations their manifests carry; the same faults apply.
+type listerSrc struct {
+	*instrGraphSrc
+}
+
+func (l *listerSrc) Referrers(ctx context.Context, d ocispec.Descriptor, artifactType string, fn func([]ocispec.Descriptor) error) error {
+	ps, err := l.instrGraphSrc.Predecessors(ctx, d)
+	if err != nil {
+		return err
+	}
+	var page []ocispec.Descriptor
+	for _, p := range ps {
+		n := l.r.u.Nodes[l.r.u.IDOf(p)]
+		p.Annotations = n.Annotations
+		p.ArtifactType = n.ArtifactType
+		if artifactType == "" || artifactType == n.ArtifactType {
+			page = append(page, p)
+		}
+	}
+	// two pages, so that a fault can also land after some referrers were delivered
+	if len(page) > 1 {
+		if err := fn(page[:1]); err != nil {
+			return err
+		}
+		page = page[1:]
+	}
+	return fn(page)
 }
 
 // instrRefTarget makes the instrumented target a registry.ReferencePusher.
